@@ -6,6 +6,12 @@
 #                    71 types x 30 classes x members x 13 entry points; each cell twice from the cold type and once
 #                    after every OTHER class has been looked up (all cache slots and memos warm): method lookups must
 #                    raise ClassError, the query forms must answer none/false; nothing is invoked.
+#                    pairs=1: for every (type, class) implemented only in part (String/Range/Slice/Zip/Map/Filter/GC Get,
+#                    Tuple/Map Iter, Show without look, ...) the back-to-back sequences  present ; empty  /  empty ; present ;
+#                    empty  /  present ; same class on the type object ; empty  /  p p e p e  /  through the other entry
+#                    point  /  implements_method interleaved - inside ONE try block, nothing else called in between.
+#   type-rt-partial  run-time types with partly filled instances (variant 1: first member empty; run-time classes with an
+#                    empty m1): per class all members through method / type_method one after the other (mode=rt, n=1,2).
 #   type-api         the public functions that dispatch through method() - len push push_at pop pop_at get set mem
 #                    rem key_type val_type c_int c_float c_str iter_* call_with sopen..swrite lock unlock trylock
 #                    current ref deref sort sort_by resize concat append format_to format_from look_from start stop
@@ -16,7 +22,10 @@
 #                    (Int->Float, String->Int) as element, key or value (push, push_at, set, append, mem, rem, get):
 #                    insertions must raise (ClassError/TypeError/ValueError), queries must not claim success, and
 #                    the container still has its two items with their values.
-#                    Last, objects that cannot be iterated (blank objects of the exported types without Iter whose own
+#                    Real objects of partly implemented classes, two or three public calls in ONE try block: mem then get/
+#                    set on a String, iter_init then iter_type on a Tuple, get then set / mem then rem on a Range and a Slice:
+#                    ClassError exactly at the missing member, objects unchanged.
+#                    Also objects that cannot be iterated (blank objects of the exported types without Iter whose own
 #                    methods the loops cannot reach; a real Int, Float, String, closed File, Function and an object of a
 #                    run-time type) given to foreach and to assign / concat / eq / cmp of Array, List, Tuple, Table, Tree:
 #                    ClassError (TypeError/ValueError), the loop body never runs, the receiver keeps its two items.
@@ -49,17 +58,19 @@ PARTS = {
   },
   'C12': {
     'quick': [
-      T('fail-cells', 'base', 'mode=matrix', 'only=fail', 'warm=1'),
+      T('fail-cells', 'base', 'mode=matrix', 'only=fail', 'warm=1', 'pairs=1'),
       T('api', 'base', 'mode=api'),
-      T('fail-cells-asan', 'asan', 'mode=matrix', 'only=fail', 'warm=1', 'count=0'),
+      T('fail-cells-asan', 'asan', 'mode=matrix', 'only=fail', 'warm=1', 'pairs=1', 'count=0'),
+      T('rt-partial', 'base', 'mode=rt', 'ns=1,2', 'pool=8', 'variants=2', 'count=0'),
       T('api-asan', 'asan', 'mode=api', 'count=0'),
       T('null', 'base', 'mode=null', *NULL_DEFECTS),
       T('null-asan', 'asan', 'mode=null', 'count=0', *NULL_DEFECTS),
     ],
     'thorough': [
-      T('fail-cells', 'base', 'mode=matrix', 'only=fail', 'warm=1'),
+      T('fail-cells', 'base', 'mode=matrix', 'only=fail', 'warm=1', 'pairs=1'),
       T('api', 'base', 'mode=api'),
-      T('fail-cells-asan', 'asan', 'mode=matrix', 'only=fail', 'warm=1', 'count=0'),
+      T('fail-cells-asan', 'asan', 'mode=matrix', 'only=fail', 'warm=1', 'pairs=1', 'count=0'),
+      T('rt-partial', 'base', 'mode=rt', 'ns=1,2', 'pool=8', 'variants=2', 'count=0'),
       T('api-asan', 'asan', 'mode=api', 'count=0'),
       T('null', 'base', 'mode=null', *NULL_DEFECTS),
       T('null-asan', 'asan', 'mode=null', 'count=0', *NULL_DEFECTS),
